@@ -1,4 +1,9 @@
-"""C05 — inter-packet response timing matches the selected bus speed (USBInterpacketTimer)."""
+"""C05 — inter-packet response timing matches the selected bus speed (USBInterpacketTimer).
+
+Leaf: the real USBInterpacketTimer for both supported domain clocks.  Caller side (w1_usb2_glue.device_timers): inside the real
+USBDevice (raw-UTMI 12 MHz full-speed-only device and ULPI 60 MHz device, each with a control, a bulk IN and a bulk OUT
+endpoint) the shared timer and the token detector's private timer meet the table *for the device's own clock and speed*,
+measured from the users' start requests to the indications at the users' ports (data receiver, every endpoint)."""
 import z3
 from hwv.contract import B, zx, bvc
 from luna.gateware.usb.usb2.packet import USBInterpacketTimer, InterpacketTimerInterface
@@ -65,3 +70,7 @@ def make(clock, fs_only):
 def contracts(tier):
     yield ("USBInterpacketTimer", "60MHz", make(60e6, False))
     yield ("USBInterpacketTimer", "12MHz_fs_only", make(12e6, True))
+    from .w1_usb2_glue import device_timers, mux_wiring
+    yield ("USBDevice", "wiring_utmi_12MHz_timers", device_timers("utmi"))
+    yield ("USBDevice", "wiring_ulpi_60MHz_timers", device_timers("ulpi"))
+    yield ("USBEndpointMultiplexer", "wiring_3_interfaces_timer", mux_wiring(3, ("timer", "tokenizer")))
